@@ -5,10 +5,10 @@ PID = "C05"
 
 def check(tier, seed):
     q = tier == "quick"
-    return G.generic_check(PID, "exploration", tier, seed, coq=False,
+    return G.generic_check(PID, "proof", tier, seed, coq=True,
         rule="real searches on corpus/random-game positions (incl. drawn roots) under random limit modes (depth, nodes, movetime, clock, infinite+stop after a random delay, ponder+ponderhit/stop), random combinations of all 25 feature switches, one Search object mostly reused so hash and history tables carry over; validated by replay: best move legal, ponder move legal after it, final PV and every 'info ... pv' line playable and starting with the best move, caller's position (FEN, key) unchanged, exactly one result, termination under a watchdog; a case = one search",
         streams=[dict(name='search_monitor', kind="monitor", shards=lambda t: 4 if t == "quick" else 16,
-                      args=lambda t, s, sh, path: ['c05-monitor', 40 if q else 600, s * 1000 + sh])])
+                      args=lambda t, s, sh, path: ['c05-monitor', 40 if t == "quick" else 600, s * 1000 + sh])])
 
 
 def replay(path):
